@@ -7,6 +7,9 @@ import numpy as np
 from .core import ahash
 
 
+LAST_CHOICE_REQUEST: dict = {}
+
+
 class SimGenerator(np.random.Generator):
     """A ``numpy.random.Generator`` that logs every draw to the trace.
 
@@ -28,6 +31,9 @@ class SimGenerator(np.random.Generator):
     # -- draws aspire / the fake kernels use --------------------------------
     def choice(self, a, size=None, replace=True, p=None, axis=0, shuffle=True):
         self.n_draws += 1
+        # how the draw was asked for (the simulation is single-threaded: the hooks below read it)
+        LAST_CHOICE_REQUEST.clear()
+        LAST_CHOICE_REQUEST.update(replace=bool(replace), axis=int(axis))
         idx = None
         if self.choice_hook is not None:
             idx = self.choice_hook(a, size, p)
@@ -39,6 +45,7 @@ class SimGenerator(np.random.Generator):
                 who=self.name,
                 n=int(a) if np.isscalar(a) else len(a),
                 size=None if size is None else int(size),
+                replace=bool(replace),
                 p=ahash(None if p is None else np.asarray(p)),
                 idx=ahash(np.asarray(idx)),
             )
